@@ -4,7 +4,12 @@
 
     SHA-256 is a parameter [H] of every statement (keys are [hex (H pre-image)]
     with the pre-image reproduced byte for byte); statements that need keys to
-    differ assume [injective H] explicitly, nothing else is assumed about it. *)
+    differ assume [injective H] explicitly, nothing else is assumed about it.
+
+    [fx : fixes] selects the code: [fx_none] is the tree as it is, [fx1 fx2 fx3]
+    switch on the candidate repairs fixes/C11-F1.diff (maps hashed in key order),
+    C11-F2.diff (cached introspection response re-validated), C11-F3.diff
+    (expressions verified on a hit). *)
 From Coq Require Import Permutation.
 From HV Require Import Base.Prelude C11.Model C11.Spec C11.Model2 C11.Spec2 C11.Proofs C11.Proofs2 C11.Proofs3.
 
@@ -21,13 +26,14 @@ Theorem C11_F4_refuted : exists a b, guard_shift a b = true /\ cat a = cat b /\ 
 Proof. exact F4_refuted. Qed.
 Print Assumptions C11_F4_refuted.
 
-(** Key determinism: with at most one endpoint header and at most one value the
-    key of a request is the same for every order in which Go may iterate the maps *)
-Theorem C11_key_deterministic : forall H i q ho ho' vo vo',
+(** Key determinism: with at most one endpoint header and at most one value — or,
+    with the repair of F1, always — the key of a request is the same for every
+    order in which Go may iterate the maps *)
+Theorem C11_key_deterministic : forall fx H i q ho ho' vo vo',
   Permutation ho (map fst (e_headers (eff_ep i))) /\ Permutation vo (map fst (i_values i)) ->
   Permutation ho' (map fst (e_headers (eff_ep i))) /\ Permutation vo' (map fst (i_values i)) ->
-  order_free i = true ->
-  cache_key H ho vo i q = cache_key H ho' vo' i q.
+  order_free i = true \/ fx1 fx = true ->
+  cache_key fx H ho vo i q = cache_key fx H ho' vo' i q.
 Proof. exact key_deterministic. Qed.
 Print Assumptions C11_key_deterministic.
 
@@ -35,7 +41,7 @@ Print Assumptions C11_key_deterministic.
 Theorem C11_F1_refuted :
   exists i q ho ho',
     order_free i = false /\ valid_orders i ho [] /\ valid_orders i ho' [] /\
-    forall H, (forall a b, H a = H b -> a = b) -> cache_key H ho [] i q <> cache_key H ho' [] i q.
+    forall H, (forall a b, H a = H b -> a = b) -> cache_key fx_none H ho [] i q <> cache_key fx_none H ho' [] i q.
 Proof. exact F1_refuted. Qed.
 Print Assumptions C11_F1_refuted.
 
@@ -46,13 +52,13 @@ Print Assumptions C11_F1_refuted.
     names, rendered payload, ttl, subject JSON) and rendered values — whatever the
     iteration orders, unless their pre-images can be shifted against each other
     (guard of C11-F4) *)
-Theorem C11_key_injective : forall H a b k,
+Theorem C11_key_injective : forall fx H a b k,
   (forall x y, H x = H y -> x = y) ->
   wf_instb (st_inst a) = true -> wf_instb (st_inst b) = true ->
   valid_orders (st_inst a) (st_ho a) (st_vo a) -> valid_orders (st_inst b) (st_ho b) (st_vo b) ->
-  cache_key H (st_ho a) (st_vo a) (st_inst a) (st_req a) = Some k ->
-  cache_key H (st_ho b) (st_vo b) (st_inst b) (st_req b) = Some k ->
-  p_F4 H a b = false ->
+  cache_key fx H (st_ho a) (st_vo a) (st_inst a) (st_req a) = Some k ->
+  cache_key fx H (st_ho b) (st_vo b) (st_inst b) (st_req b) = Some k ->
+  p_F4 fx H a b = false ->
   exists c, components a = Some c /\ components b = Some c.
 Proof. exact key_injective. Qed.
 Print Assumptions C11_key_injective.
@@ -63,20 +69,31 @@ Print Assumptions C11_key_injective.
     any iteration orders — on which none of the guards of C11-F2 (assertions),
     F3 (expressions), F4 (shifted writes), F6 (forwarded values), F7 (outputs in
     endpoint templates) fires, every outcome with the cache is the outcome of a
-    fresh evaluation under the instance's own policy *)
-Theorem C11_cache_transparent : forall H w h,
+    fresh evaluation under the instance's own policy; with the repair of F2 (F3)
+    the guard of F2 (F3) is not needed *)
+Theorem C11_cache_transparent : forall fx H w h,
   (forall x y, H x = H y -> x = y) -> wf_history h ->
-  g_F2 h = false -> g_F3 h = false -> g_F4 H h = false -> g_F6 h = false -> g_F7 h = false ->
-  map sr_out (run_cached H w [] h) = map fst (run_fresh w h).
+  (fx2 fx = true \/ g_F2 h = false) -> (fx3 fx = true \/ g_F3 h = false) ->
+  g_F4 fx H h = false -> g_F6 h = false -> g_F7 h = false ->
+  map sr_out (run_cached fx H w [] h) = map fst (run_fresh w h).
 Proof. exact cache_transparent. Qed.
 Print Assumptions C11_cache_transparent.
+
+(** the same for the tree with the three candidate repairs: no request is
+    validated under a different rule's policy any more, whatever the instances *)
+Theorem C11_cache_transparent_repaired : forall H w h,
+  (forall x y, H x = H y -> x = y) -> wf_history h ->
+  g_F4 fx_all H h = false -> g_F6 h = false -> g_F7 h = false ->
+  map sr_out (run_cached fx_all H w [] h) = map fst (run_fresh w h).
+Proof. intros H w h Hi W. apply cache_transparent; auto. Qed.
+Print Assumptions C11_cache_transparent_repaired.
 
 (** the hypotheses of the two main theorems are satisfied by a history with
     two subjects, two values and a repeated request *)
 Theorem C11_nonvacuous :
   wf_history ok_history /\
   g_F1 ok_history (Some 0) = false /\ g_F2 ok_history = false /\ g_F3 ok_history = false /\
-  (forall H, (forall x, String.length (H x) = 32) -> g_F4 H ok_history = false) /\
+  (forall fx H, (forall x, String.length (H x) = 32) -> g_F4 fx H ok_history = false) /\
   g_F6 ok_history = false /\ g_F7 ok_history = false /\
   (exists a b, nth_error ok_history 0 = Some a /\ nth_error ok_history 2 = Some b /\ same_request a b = true /\
                enabled (st_inst a) = true /\ order_free (st_inst a) = true /\
@@ -85,40 +102,40 @@ Proof. exact nonvacuous. Qed.
 Print Assumptions C11_nonvacuous.
 
 (** The semantic core of the transparency proof, for all histories: if, among the look-ups of a history,
-    requests that share a key are requests for which a fresh evaluation yields
-    the same allowed result, then every outcome with the cache equals the
-    outcome without it — for all histories, instances, requests and iteration orders *)
-Theorem C11_cache_transparent_if_compatible : forall H w (h : list step),
+    what a request makes of a result stored by a request with the same key is
+    what a fresh evaluation of it yields, then every outcome with the cache equals
+    the outcome without it — for all histories, instances, requests and iteration orders *)
+Theorem C11_cache_transparent_if_compatible : forall fx H w (h : list step),
   (forall a b k r, In a h -> In b h ->
-     cache_key H (st_ho a) (st_vo a) (st_inst a) (st_req a) = Some k ->
-     cache_key H (st_ho b) (st_vo b) (st_inst b) (st_req b) = Some k ->
+     cache_key fx H (st_ho a) (st_vo a) (st_inst a) (st_req a) = Some k ->
+     cache_key fx H (st_ho b) (st_vo b) (st_inst b) (st_req b) = Some k ->
      fst (exec_fresh w (st_inst a) (st_req a)) = OAllow r ->
-     fst (exec_fresh w (st_inst b) (st_req b)) = OAllow r) ->
-  map sr_out (run_cached H w [] h) = map fst (run_fresh w h).
+     recheck fx (st_inst b) r = fst (exec_fresh w (st_inst b) (st_req b))) ->
+  map sr_out (run_cached fx H w [] h) = map fst (run_fresh w h).
 Proof. exact cache_transparent_steps. Qed.
 Print Assumptions C11_cache_transparent_if_compatible.
 
-(** … and only then: two look-ups that share a key although a fresh evaluation
-    of the second does not yield the first's result change a decision *)
-Theorem C11_shared_key_changes_decision : forall H w a b k r,
-  cache_key H (st_ho a) (st_vo a) (st_inst a) (st_req a) = Some k ->
-  cache_key H (st_ho b) (st_vo b) (st_inst b) (st_req b) = Some k ->
+(** … and only then: two look-ups that share a key although the second makes of
+    the first's result something else than its own fresh evaluation change a decision *)
+Theorem C11_shared_key_changes_decision : forall fx H w a b k r,
+  cache_key fx H (st_ho a) (st_vo a) (st_inst a) (st_req a) = Some k ->
+  cache_key fx H (st_ho b) (st_vo b) (st_inst b) (st_req b) = Some k ->
   fst (exec_fresh w (st_inst a) (st_req a)) = OAllow r ->
-  fst (exec_fresh w (st_inst b) (st_req b)) <> OAllow r ->
-  map sr_out (run_cached H w [] [a; b]) <> map fst (run_fresh w [a; b]).
+  recheck fx (st_inst b) r <> fst (exec_fresh w (st_inst b) (st_req b)) ->
+  map sr_out (run_cached fx H w [] [a; b]) <> map fst (run_fresh w [a; b]).
 Proof. exact not_transparent_steps. Qed.
 Print Assumptions C11_shared_key_changes_decision.
 
 (** Identical requests hit: in every history (any cache state [c], any steps
     before and between), a request identical to an earlier one that a fresh
     evaluation allows is answered from the cache without a remote call, for
-    every iteration order — outside the guard of C11-F1 *)
-Theorem C11_identical_requests_hit : forall H w l1 a l2 b r c,
+    every iteration order — outside the guard of C11-F1, or with its repair *)
+Theorem C11_identical_requests_hit : forall fx H w l1 a l2 b r c,
   same_request a b = true ->
   valid_orders (st_inst a) (st_ho a) (st_vo a) -> valid_orders (st_inst b) (st_ho b) (st_vo b) ->
-  enabled (st_inst a) = true -> order_free (st_inst a) = true ->
+  enabled (st_inst a) = true -> order_free (st_inst a) = true \/ fx1 fx = true ->
   fst (exec_fresh w (st_inst a) (st_req a)) = OAllow r ->
-  exists x, nth_error (run_cached H w c (l1 ++ a :: l2 ++ [b])) (length l1 + S (length l2)) = Some x /\
+  exists x, nth_error (run_cached fx H w c (l1 ++ a :: l2 ++ [b])) (length l1 + S (length l2)) = Some x /\
             sr_hit x = true /\ sr_calls x = 0.
 Proof. exact identical_requests_hit. Qed.
 Print Assumptions C11_identical_requests_hit.
@@ -127,31 +144,31 @@ Print Assumptions C11_identical_requests_hit.
     the cache changes the decision, for every SHA-256 *)
 Theorem C11_F2_refuted :
   exists w a b, g_F2 [a; b] = true /\ step_orders_valid a /\ step_orders_valid b /\
-    forall H, map sr_out (run_cached H w [] [a; b]) <> map fst (run_fresh w [a; b]).
+    forall H, map sr_out (run_cached fx_none H w [] [a; b]) <> map fst (run_fresh w [a; b]).
 Proof. exact F2_refuted. Qed.
 Print Assumptions C11_F2_refuted.
 
 Theorem C11_F3_refuted :
   exists w a b, g_F3 [a; b] = true /\ step_orders_valid a /\ step_orders_valid b /\
-    forall H, map sr_out (run_cached H w [] [a; b]) <> map fst (run_fresh w [a; b]).
+    forall H, map sr_out (run_cached fx_none H w [] [a; b]) <> map fst (run_fresh w [a; b]).
 Proof. exact F3_refuted. Qed.
 Print Assumptions C11_F3_refuted.
 
 Theorem C11_F4_history_refuted :
-  exists w a b, (forall H, g_F4 H [a; b] = true) /\ step_orders_valid a /\ step_orders_valid b /\
-    forall H, map sr_out (run_cached H w [] [a; b]) <> map fst (run_fresh w [a; b]).
+  exists w a b, (forall H, g_F4 fx_none H [a; b] = true) /\ step_orders_valid a /\ step_orders_valid b /\
+    forall H, map sr_out (run_cached fx_none H w [] [a; b]) <> map fst (run_fresh w [a; b]).
 Proof. exact F4_history_refuted. Qed.
 Print Assumptions C11_F4_history_refuted.
 
 Theorem C11_F6_refuted :
   exists w a b, g_F6 [a; b] = true /\ step_orders_valid a /\ step_orders_valid b /\
-    forall H, map sr_out (run_cached H w [] [a; b]) <> map fst (run_fresh w [a; b]).
+    forall H, map sr_out (run_cached fx_none H w [] [a; b]) <> map fst (run_fresh w [a; b]).
 Proof. exact F6_refuted. Qed.
 Print Assumptions C11_F6_refuted.
 
 Theorem C11_F7_refuted :
   exists w a b, g_F7 [a; b] = true /\ step_orders_valid a /\ step_orders_valid b /\
-    forall H, map sr_out (run_cached H w [] [a; b]) <> map fst (run_fresh w [a; b]).
+    forall H, map sr_out (run_cached fx_none H w [] [a; b]) <> map fst (run_fresh w [a; b]).
 Proof. exact F7_refuted. Qed.
 Print Assumptions C11_F7_refuted.
 
